@@ -76,7 +76,8 @@ def summary (T : Table) : List String :=
   (T.rootIds .controller).map toString ++ ["R"] ++ (T.rootIds .filter).map toString ++
   ["C", toString (T.reach .controller), "F", toString (T.reach .filter), "S"] ++ T.shared.map toString ++
   ["U"] ++ T.undisciplined.map toString ++ ["P"] ++
-  (T.spawns.map fun p => decodeName p.1 ++ "/" ++ decodeName p.2) ++ ["J", bstr T.joinCertifiedB]
+  (T.spawns.map fun p => decodeName p.1 ++ "/" ++ decodeName p.2) ++ ["J", bstr T.joinCertifiedB] ++
+  ["M", bstr T.modelConfinedB, "H", bstr T.hooksConfinedB]
 
 def handle (op : String) (args : List String) : Option String :=
   match op, args with
